@@ -100,6 +100,12 @@ def judge(S: dict, r: dict) -> str | None:
             elif res[0] != 'exc':
                 return 'crash:client-got-nothing'
             continue
+        if shape == 'raise_late':
+            # the failing sibling may report after the result went out: if its body ran, the client must be told
+            # at the latest on its next call once the system is quiet
+            if ('boom', 2) in log and 'boom-2' not in chain_text(res[1]):
+                return 'raise:late-error-never-reported'
+            continue
         if shape in R.RAISE_SHAPES:
             if res[0] == 'ok':
                 return 'raise:client-got-a-result'
